@@ -44,12 +44,15 @@ type snapRec struct {
 }
 
 type concState struct {
-	or       concOracles
-	stable   []uint32
-	own      map[int][]uint32 // rows inserted (and committed) by each thread, still live
-	perBlock map[uint32][]*blockCommit
-	cur      map[int]map[uint32]*blockCommit // thread -> block -> entry being committed
-	snaps    []*snapRec
+	or        concOracles
+	stable    []uint32
+	own       map[int][]uint32 // rows inserted (and committed) by each thread, still live
+	perBlock  map[uint32][]*blockCommit
+	cur       map[int]map[uint32]*blockCommit // thread -> block -> entry being committed
+	holding   map[int]map[uint32]bool         // thread -> blocks whose write latch it took for a commit and has not released yet
+	latchStep map[int]map[uint32]int          // thread -> block -> scheduler step at which it was released to take the write latch
+	snapBlock int                             // block the snapshotter thread is reading (-1 = none)
+	snaps     []*snapRec
 	// replicas
 	ch          commit.Channel
 	queue       []int // deliverAt step per commit in the channel, FIFO
@@ -88,7 +91,7 @@ func (f *SimRW) Read(p []byte) (int, error) {
 func runConc(cs *Case, or concOracles) (w *World) {
 	w = newWorld(cs)
 	curWorld = w
-	st := &concState{or: or, own: map[int][]uint32{}, perBlock: map[uint32][]*blockCommit{}, cur: map[int]map[uint32]*blockCommit{},
+	st := &concState{or: or, own: map[int][]uint32{}, perBlock: map[uint32][]*blockCommit{}, cur: map[int]map[uint32]*blockCommit{}, holding: map[int]map[uint32]bool{},
 		committedBlocks: map[*MTxn]map[uint32]bool{}, emitted: map[*MTxn]map[uint32]int{}, txnOf: map[int]*MTxn{}}
 	w.conc = st
 	defer func() {
@@ -99,6 +102,11 @@ func runConc(cs *Case, or concOracles) (w *World) {
 			w.stats.Choices = w.sim.choices
 			w.stats.Ilv = uint64(w.sim.ilv)
 			w.stats.Trace = uint64(w.sim.trace.add(w.model.stateHash()).add(uint64(len(w.tap.Commits))))
+			for k, n := range w.sim.faults {
+				for i := 0; i < n; i++ {
+					w.stats.fault(k)
+				}
+			}
 			w.stats.Hooks = map[string]int{}
 			for k, n := range w.sim.hits {
 				if n > 0 {
@@ -112,6 +120,12 @@ func runConc(cs *Case, or concOracles) (w *World) {
 	w.primary = w.newCollection(w.tap)
 	w.prefill(w.primary, cs.Cfg.Prefill)
 	prefillModel(w.model, cs.Cfg.Prefill)
+	if cs.Cfg.Params["ghost"] == 1 {
+		if err := w.primary.CreateColumn("ghost", column.ForInt64()); err != nil {
+			panic(err)
+		}
+		w.ghostLive = true
+	}
 
 	// setup transactions (stable rows with initial values) run on the scheduler goroutine
 	for i := range cs.Steps {
@@ -166,18 +180,8 @@ func runConc(cs *Case, or concOracles) (w *World) {
 	if cs.Sched == nil {
 		w.sim.replay = nil
 	}
+	w.sim.AddStalls(cs.Faults)
 	w.mergeYields = cs.Cfg.Prefill == nil || len(cs.Cfg.Prefill.KeepFull) == 0
-	for _, tp := range cs.Threads {
-		for _, t := range tp.Txns {
-			for _, op := range t.Ops {
-				if (op.Kind == "mkindex" || op.Kind == "mksort") && w.avoid["index-build-during-apply"] {
-					// known finding: a commit pre-empted inside a column's Apply (only reachable through
-					// the merge-function yield) misses an index registered meanwhile
-					w.mergeYields = false
-				}
-			}
-		}
-	}
 	w.capFor = map[int]*filterCapture{}
 	for _, k := range cs.Muted {
 		if k > 0 && k < int(ptMax) {
@@ -191,7 +195,7 @@ func runConc(cs *Case, or concOracles) (w *World) {
 			if tp.Role == "writer" {
 				st.writersLeft++
 			}
-			w.sim.Go(fmt.Sprintf("%s%d", tp.Role, ti), func(t *Thread) {
+			w.sim.GoRole(tp.Role, fmt.Sprintf("%s%d", tp.Role, ti), func(t *Thread) {
 				for xi := range tp.Txns {
 					if w.stopped() {
 						break
@@ -229,12 +233,33 @@ func runConc(cs *Case, or concOracles) (w *World) {
 							continue
 						}
 						for _, ot := range w.sim.threads {
-							if !ot.done && ot.pt.Kind == ptInMerge && (op.Kind == "mkindex" || op.Kind == "mksort") {
-								w.noteTrigger("index-build-during-apply")
+							if !ot.done && (ot.pt.Kind == ptInMerge || ot.pt.Kind == ptMuLock && len(st.holding[ot.ID]) > 0) && (op.Kind == "mkindex" || op.Kind == "mksort") {
 								w.stats.probe("index-built-while-a-commit-is-inside-apply")
 							}
 						}
 						switch op.Kind {
+						case "dropghost":
+							if w.ghostLive {
+								w.primary.DropColumn("ghost")
+								w.ghostLive = false
+								for _, mt := range w.txns {
+									if mt != nil && mt.ghost {
+										w.stats.probe("column-dropped-while-a-transaction-holds-stores-to-it")
+									}
+								}
+							}
+							w.sim.Yield(ptTxnEdge)
+							continue
+						case "mkghost":
+							if !w.ghostLive {
+								if err := w.primary.CreateColumn("ghost", column.ForInt64()); err != nil {
+									w.fail(violation("schema", "CreateColumn(ghost): %v", err))
+									return
+								}
+								w.ghostLive = true
+							}
+							w.sim.Yield(ptTxnEdge)
+							continue
 						case "mksort":
 							if _, ok := w.model.Col(op.Sort.Col); ok {
 								if err := w.primary.CreateSortIndex(op.Sort.Name, op.Sort.Col); err != nil {
@@ -279,8 +304,15 @@ func runConc(cs *Case, or concOracles) (w *World) {
 			panic("unknown role " + tp.Role)
 		}
 	}
+	st.snapBlock = -1
 	w.sim.onPick = func(t *Thread, enabled int) {
 		if t.role == "snapshot" && t.pt.Kind == uint8(column.SimBeforeRLock) && t.pt.Coll == w.primary && w.reservedIn(t.pt.Arg) {
+			w.noteTrigger("snapshot-reserved")
+			w.stats.probe("snapshot-reads-block-with-reserved-insert")
+		}
+		if t.role == "snapshot" && t.pt.Kind == ptMuLock && st.snapBlock >= 0 && w.reservedIn(uint32(st.snapBlock)) {
+			// instrumented build: the snapshotter waited in front of the fill-list lock with the
+			// block's read latch already taken, and an insert reserved an offset meanwhile
 			w.noteTrigger("snapshot-reserved")
 			w.stats.probe("snapshot-reads-block-with-reserved-insert")
 		}
@@ -435,6 +467,9 @@ func (w *World) concHook(c *column.Collection, latch *smutex.SMutex128, p uint8,
 		}
 		w.seq++
 		bc := &blockCommit{mt: mt, block: arg, seq: w.seq, startStep: w.sim.steps, endStep: -1}
+		if at, ok := st.latchStep[tid][arg]; ok {
+			bc.startStep = at // row deletes reach the columns (and triggers) before this hook
+		}
 		st.perBlock[arg] = append(st.perBlock[arg], bc)
 		if st.cur[tid] == nil {
 			st.cur[tid] = map[uint32]*blockCommit{}
@@ -445,6 +480,7 @@ func (w *World) concHook(c *column.Collection, latch *smutex.SMutex128, p uint8,
 			w.fail(violation("latch/not-held-in-commit", "thread %d applies block %d without holding its write latch", tid, arg))
 		}
 	case uint8(column.SimAfterUnlock):
+		delete(st.holding[tid], arg)
 		if w.ttl != nil && w.sim.cur.foreign {
 			delete(w.ttl.vCommitting, arg)
 		}
@@ -479,12 +515,16 @@ func (w *World) concHook(c *column.Collection, latch *smutex.SMutex128, p uint8,
 			}
 		}
 	case uint8(column.SimSnapshotPhase):
+		st.snapBlock = -1
 		w.stats.probe(fmt.Sprintf("snapshot-phase-%d", arg))
 		if arg == 3 && len(st.snaps) > 0 {
 			s := st.snaps[len(st.snaps)-1]
 			s.stateLen = len(s.file.Data)
 		}
 	case uint8(column.SimBeforeRLock):
+		if w.sim.cur.role == "snapshot" {
+			st.snapBlock = int(arg) // the block the snapshot is about to read
+		}
 		// a muted hook does not park: the block is read right now
 		if w.sim.cur.role == "snapshot" && w.sim.muted[p] && w.readyFn(c, p, arg) == nil && w.reservedIn(arg) {
 			w.noteTrigger("snapshot-reserved")
@@ -721,6 +761,55 @@ func (w *World) checkStream() *Violation {
 		}
 	}
 	return nil
+}
+
+// latchTaken is called when a committing thread is released from the hook before its
+// block write latch: from now until AfterUnlock it holds that latch. Inside that window the
+// library updates the fill list and the key table (both readable without the latch) before
+// and after the MidCommit1 hook at which the model applies the block.
+func (w *World) latchTaken(tid int, block uint32) {
+	st := w.conc
+	if st.holding == nil {
+		st.holding = map[int]map[uint32]bool{}
+	}
+	if st.holding[tid] == nil {
+		st.holding[tid] = map[uint32]bool{}
+	}
+	st.holding[tid][block] = true
+	if st.latchStep == nil {
+		st.latchStep = map[int]map[uint32]int{}
+	}
+	if st.latchStep[tid] == nil {
+		st.latchStep[tid] = map[uint32]int{}
+	}
+	st.latchStep[tid][block] = w.sim.steps
+}
+
+// deleteInFlight reports whether another thread holds the write latch of off's block for a
+// commit that deletes row off and has not been applied to the model yet: the library clears
+// the fill bit first thing under the latch, so the offset may be handed out again while the
+// model still shows the row (the new occupant cannot touch the block before the latch is
+// released, which is after the model caught up).
+func (w *World) deleteInFlight(off uint32) bool {
+	st := w.conc
+	if st == nil {
+		return false
+	}
+	for tid, blocks := range st.holding {
+		if tid == w.tid() || !blocks[off>>14] {
+			continue
+		}
+		mt := w.txns[tid]
+		if mt == nil || mt.applied[off>>14] {
+			continue
+		}
+		for _, o := range mt.Ops {
+			if o.Kind == mDelete && o.Off == off {
+				return true
+			}
+		}
+	}
+	return false
 }
 
 func (w *World) reservedIn(block uint32) bool {
